@@ -908,8 +908,8 @@ def run_(ctx):
                 ("res", 4, 3, [{"nb": 2, "direct": True}], "resdirect"),
                 ("disk", 4, 3, [{"subdirs": s_, "bg": b_} for s_ in (True, False) for b_ in (False, True)]),
                 ("journal", 5, 3, [{}])]
-        base_depth, max2 = 4, 4000
-        consts2 = dict(consts)
+        base_depth, max2 = 4, {"res": 1500, "journal": 600, "lru": 1000, "index": 400, "disk": 800}
+        consts2 = dict(consts, FineLimit=512, SampleN=6)
         nstrict = 6
     shapes = model_check(ctx)
     cases = gen_cases(ctx, plan)
